@@ -115,6 +115,10 @@ def gen_history(schema, ty, rnd, n, emphasis=None):
     # occurrences of known field numbers with a wire type the field cannot have (schema drift, a reused number): kept as unknown
     # fields, and - like any unknown field - without effect on what the message holds, oneof selections included
     for op in ops:
+        if op["op"] == "parse" and r2.random() < .25 and ty != "Nil":
+            op["again"] = gen.rmsg(schema, ty, r2, density=r2.choice([0.1, 0.3]))
+        if op["op"] == "parse" and op.get("unk") and r2.random() < .4:
+            op["unk"] = list(op["unk"]) + [5 + r2.randrange(4)]
         if op["op"] == "parse" and r2.random() < .3 and ty != "Nil":
             op["mis"] = []
             for f in r2.sample(schema["types"][ty], min(len(schema["types"][ty]), r2.randint(1, 2))):
@@ -123,6 +127,10 @@ def gen_history(schema, ty, rnd, n, emphasis=None):
                     fits.add(2)
                 op["mis"].append([f["num"], r2.choice(sorted({0, 1, 2, 5} - fits))])
     # reads of a container inside a sub-message (unset or not): m.<f>.<list or map field>
+    if r2.random() < .3 and ty != "Nil":
+        at = r2.randint(1, len(ops))
+        ops.insert(at, {"op": "eqwith", "src": gen.rmsg(schema, ty, r2, density=r2.choice([0.0, 0.1, 0.3]))})
+        ops.insert(at + 1, {"op": r2.choice(["copy", "deepcopy", "observe"])})
     if any(f["card"] == "map" for f in schema["types"][ty]) and r2.random() < .3:
         ops.insert(r2.randint(1, len(ops)), {"op": "eqother"})
     boxes = [(f, g) for f in schema["types"][ty] if f["kind"] == "message" and f["card"] in ("implicit", "optional", "oneof")
@@ -358,7 +366,7 @@ def run_history(schema, C, ty, ops, R=None, reread=False, dictback=False):
     m = None
     byname = {f["name"]: f for f in schema["types"][ty]}
     for op in ops:
-        e = {"op": op["op"], "f": op.get("f", ""), "x": op.get("x", ""), "v": op.get("v", {"k": "unset"}), "key": op.get("key", {"k": "unset"}), "kw": op.get("kw", []), "b": [],
+        e = {"op": op["op"], "f": op.get("f", ""), "x": op.get("x", ""), "g": op.get("g", ""), "v": op.get("v", {"k": "unset"}), "key": op.get("key", {"k": "unset"}), "kw": op.get("kw", []), "b": [],
              "res": "ok", "eq": True, "samebytes": True}
         try:
             k = op["op"]
@@ -385,6 +393,18 @@ def run_history(schema, C, ty, ops, R=None, reread=False, dictback=False):
                 g = next(x for x in schema["types"][byname[op["f"]]["msg"]] if x["name"] == op["x"])
                 getattr(getattr(m, op["f"]), op["x"])[dyn.conc_bp_single(schema, C, dict(g, kind=g["kkind"]), g["kkind"], op["key"])] = \
                     dyn.conc_bp_single(schema, C, dict(g, kind=g["vkind"]), g["vkind"], op["v"])
+            elif k == "fillpath":       # m.<f>.<g>.<x>.append(v): nothing on the way is assigned to
+                f = byname[op["f"]]
+                g = next(y for y in schema["types"][f["msg"]] if y["name"] == op["g"])
+                x = next(y for y in schema["types"][g["msg"]] if y["name"] == op["x"])
+                e["g"] = op["g"]
+                getattr(getattr(getattr(m, op["f"]), op["g"]), op["x"]).append(C[x["msg"]]() if op["v"].get("fresh") else dyn.conc_bp_single(schema, C, x, x["kind"], op["v"]))
+            elif k == "eqwith":         # compared with an unrelated message of the same class (the answer is not judged; both stay as they are)
+                other = dyn.conc_bp(schema, C, ty, op["src"])
+                before = bytes(other)
+                m == other
+                other == m
+                e["samebytes"] = bytes(other) == before
             elif k == "selfin":
                 sub = getattr(m, op["f"])
                 setattr(sub, op["x"], getattr(sub, op["x"]))
@@ -393,8 +413,11 @@ def run_history(schema, C, ty, ops, R=None, reread=False, dictback=False):
             elif k == "getin":
                 getattr(getattr(m, op["f"]), op["x"])
             elif k == "parse":
-                from .props.c02 import UNKNOWN
-                b = bytes(dyn.conc_bp(schema, C, ty, op["src"])) + b"".join(_occurrence(n, wt) for n, wt in op.get("mis", [])) + b"".join(UNKNOWN[i] for i in op.get("unk", []))
+                from .props.c02 import UNKNOWN, UNKNOWN_MORE
+                b = bytes(dyn.conc_bp(schema, C, ty, op["src"]))
+                if op.get("again") is not None:      # one payload in which the fields of src occur, then those of another message, then src's again
+                    b = b + bytes(dyn.conc_bp(schema, C, ty, op["again"])) + b
+                b = b + b"".join(_occurrence(n, wt) for n, wt in op.get("mis", [])) + b"".join((UNKNOWN + UNKNOWN_MORE)[i] for i in op.get("unk", []))
                 e["b"] = list(b)
                 m.parse(b)
             elif k == "parse_bad":
@@ -541,6 +564,35 @@ def _occurrence(num, wt):
     return _varint(num << 3 | wt) + {0: b"\x05", 1: b"\x01\x02\x03\x04\x05\x06\x07\x08", 2: b"\x02\x08\x01", 5: b"\x01\x02\x03\x04"}[wt]
 
 
+def directed(schema, types):
+    """a few histories every driver runs on its types: an object that was never assigned to at the top level, whose plain
+    sub-message gets a field set to its ZERO value (present, equal to its default, parent untouched); the same after a blind
+    start; a deep in-place fill"""
+    out = []
+    for ty in types:
+        if ty == "TOneP":
+            continue
+        for f in schema["types"][ty]:
+            if f["kind"] != "message" or f["card"] != "implicit":
+                continue
+            for g in schema["types"][f["msg"]]:
+                if g["card"] == "implicit" and g["kind"] not in ("message", "map", "wrap", "timestamp", "duration"):
+                    zero = gen.default_of(schema, g)
+                    out.append((ty, [{"op": "new", "kw": []}, {"op": "setin", "f": f["name"], "x": g["name"], "v": zero}, {"op": "len"}, {"op": "observe"}, {"op": "deepcopy"}]))
+                    out.append((ty, [{"op": "new", "kw": [], "blind": True}, {"op": "setin", "f": f["name"], "x": g["name"], "v": zero, "blind": True}, {"op": "observe"}]))
+                    break
+            for g in schema["types"][f["msg"]]:
+                if g["kind"] == "message" and g["card"] == "implicit":
+                    for x in schema["types"][g["msg"]]:
+                        if x["card"] == "repeated" and x["kind"] == "message":
+                            elem = {"k": "msg", "m": gen.fresh(schema, x["msg"]), "fresh": True}
+                            out.append((ty, [{"op": "new", "kw": []}, {"op": "fillpath", "f": f["name"], "g": g["name"], "x": x["name"], "v": elem}, {"op": "observe"}, {"op": "bytes"}, {"op": "copy"}]))
+                            out.append((ty, [{"op": "new", "kw": [], "blind": True}, {"op": "fillpath", "f": f["name"], "g": g["name"], "x": x["name"], "v": elem, "blind": True}, {"op": "observe"}]))
+                            break
+                    break
+    return out
+
+
 def _in_dict(d, name):
     return name in d or name.rstrip("_") in d
 
@@ -568,6 +620,7 @@ def run_histories(ctx, types, count, length, emphasis, withref=False, extra=(), 
         world_ = "gen" if (len(cases) % 4 == 3 and ty != "TOneP" and have_gen) else "dyn"
         cases.append((ty, gen_history(w["schema"], ty, rnd, rnd.randint(2, length), emphasis), withref, "dictback" if judge_dict else bool(judge_len), world_))
     cases += [(ty, ops, withref, "dictback" if judge_dict else bool(judge_len), "dyn") for ty, ops in extra]
+    cases += [(ty, ops, withref, "dictback" if judge_dict else bool(judge_len), "dyn") for ty, ops in directed(w["schema"], sorted(set(types)))]
     msgev.gen_world()
     events = ctx.pmap(history_event, cases)
     for c in cases:
